@@ -135,6 +135,7 @@ func gen(rng *hx.Rng, meta *hx.Meta) bcase {
 }
 
 type obs struct {
+	Fault   []fres
 	Flushed [][]byte
 	Read    []byte
 	EOF     bool
@@ -144,7 +145,18 @@ type obs struct {
 // runFault: the same op sequence over a connection whose k-th Write fails (possibly a timeout, possibly after
 // partial progress).  Oracles: the peer's bytes are always a prefix of the bytes the calls reported as accepted, in call order; a Flush that
 // reports success means the peer has every byte the earlier calls reported as accepted.
-func runFault(c bcase) (bad string) {
+type fres struct {
+	N   int64
+	OK  bool
+	Far []byte
+}
+
+func runFault(c bcase) (bad string, res []fres) {
+	note := func(s string) {
+		if bad == "" {
+			bad = s
+		}
+	}
 	conn := &memConn{peer: c.Peer.Reader(), failAt: c.FailAt, partial: c.Partial, timeout: c.Timeout}
 	tr := transport.NewTransport(conn, c.RSize, c.WSize)
 	var accepted []byte
@@ -154,9 +166,11 @@ func runFault(c bcase) (bad string) {
 			b := wire.Cat(op.P)
 			n, err := tr.Write(b)
 			if n < 0 || n > len(b) || (err == nil && n != len(b)) {
-				return fmt.Sprintf("op %d: Write returned %d, %v for %d bytes", i, n, err, len(b))
+				note(fmt.Sprintf("op %d: Write returned %d, %v for %d bytes", i, n, err, len(b)))
+				n = 0
 			}
 			accepted = append(accepted, b[:n]...)
+			res = append(res, fres{int64(n), err == nil, append([]byte(nil), conn.far...)})
 		case "writev":
 			var bufs net.Buffers
 			var all []byte
@@ -167,24 +181,28 @@ func runFault(c bcase) (bad string) {
 			}
 			n, err := tr.Writev(bufs)
 			if n < 0 || int(n) > len(all) || (err == nil && int(n) != len(all)) {
-				return fmt.Sprintf("op %d: Writev returned %d, %v for %d bytes", i, n, err, len(all))
+				note(fmt.Sprintf("op %d: Writev returned %d, %v for %d bytes", i, n, err, len(all)))
+				n = 0
 			}
 			accepted = append(accepted, all[:n]...)
+			res = append(res, fres{n, err == nil, append([]byte(nil), conn.far...)})
 		case "flush":
-			if err := tr.Flush(); err == nil && !bytes.Equal(conn.far, accepted) {
-				return fmt.Sprintf("op %d: Flush reported success but the peer has %d bytes while %d were accepted by the calls before it (connection write #%d failed earlier, timeout=%v, after %d bytes)", i, len(conn.far), len(accepted), c.FailAt, c.Timeout, c.Partial)
+			err := tr.Flush()
+			res = append(res, fres{0, err == nil, append([]byte(nil), conn.far...)})
+			if err == nil && !bytes.Equal(conn.far, accepted) {
+				note(fmt.Sprintf("op %d: Flush reported success but the peer has %d bytes while %d were accepted by the calls before it (connection write #%d failed earlier, timeout=%v, after %d bytes)", i, len(conn.far), len(accepted), c.FailAt, c.Timeout, c.Partial))
 			}
 		}
 		if !bytes.HasPrefix(accepted, conn.far) {
-			return fmt.Sprintf("op %d: the peer's bytes are not a prefix of the bytes the calls reported as accepted, in call order (after the injected failure of connection write #%d)", i, c.FailAt)
+			note(fmt.Sprintf("op %d: the peer's bytes are not a prefix of the bytes the calls reported as accepted, in call order (after the injected failure of connection write #%d)", i, c.FailAt))
 		}
 	}
-	return ""
+	return
 }
 
 func run(c bcase) (o obs) {
 	if c.FailAt > 0 {
-		o.Bad = runFault(c)
+		o.Bad, o.Fault = runFault(c)
 		return
 	}
 	conn := &memConn{peer: c.Peer.Reader()}
@@ -273,7 +291,16 @@ func main() {
 			meta.Violate(hx.Violation{Property: "C17", What: o.Bad, Signature: "write-stream", Replay: rep})
 		}
 		if c.FailAt > 0 {
-			return ""
+			ops := make([]string, len(c.Ops))
+			for i := range c.Ops {
+				ops[i] = c.Ops[i].coq()
+			}
+			rs := make([]string, len(o.Fault))
+			for i, r := range o.Fault {
+				rs[i] = fmt.Sprintf("(%s, %s, %s)", hx.Z(r.N), hx.Bool(r.OK), wire.DgCoq(r.Far))
+			}
+			return fmt.Sprintf("{| fc_id := %s; fc_wsize := %d; fc_k := %s; fc_a := %d; fc_ops := %s; fc_res := %s |}",
+				hx.Nat(id), c.WSize, hx.Nat(c.FailAt-1), c.Partial, hx.List(ops), hx.List(rs))
 		}
 		want := wire.Cat(c.Peer.Wire)
 		if !bytes.Equal(o.Read, want) {
@@ -297,7 +324,7 @@ func main() {
 		fmt.Println("not reproduced: property holds on this case")
 		return
 	}
-	n := hx.Pick3(args.Tier, 500, 5000, 30000)
+	n := hx.Pick3(args.Tier, 400, 5000, 30000)
 	var cases []string
 	for i := 0; i < n; i++ {
 		c := gen(rng, meta)
@@ -312,14 +339,16 @@ func main() {
 	}
 	// connection faults: the k-th Write on the connection fails (timeout or not, with partial progress), the
 	// wrapper is used again afterwards
-	nf := hx.Pick3(args.Tier, 300, 3000, 10000)
+	var fcases []string
+	nf := hx.Pick3(args.Tier, 200, 3000, 10000)
 	for i := 0; i < nf; i++ {
 		c := gen(rng, meta)
 		c.FailAt = 1 + rng.Intn(4)
 		c.Partial = []int{0, 0, 1, 3, 7}[rng.Intn(5)]
 		c.Timeout = rng.Bool()
 		meta.Count("fault", fmt.Sprintf("timeout=%v", c.Timeout))
-		check(c, n+i)
+		fcases = append(fcases, check(c, i))
+		meta.CaseIndex["RF:"+fmt.Sprint(i)] = map[string]interface{}{"case": c}
 		meta.Distinct(fmt.Sprint(c))
 	}
 	if args.Out != "" && args.Out != os.DevNull {
@@ -327,8 +356,10 @@ func main() {
 		sb.WriteString("From Coq Require Import ZArith List.\nFrom GN Require Import Base.Reader Model.Frame Model.FrameCheck Model.Bufio Model.BufioCheck.\nImport ListNotations.\nOpen Scope Z_scope.\n")
 		sb.WriteString("Definition cases : list bcase := [\n" + strings.Join(cases, ";\n") + "].\n")
 		sb.WriteString("Definition R := Eval vm_compute in check_bcases cases.\nPrint R.\n")
+		sb.WriteString("Definition fcases : list fcase := [\n" + strings.Join(fcases, ";\n") + "].\n")
+		sb.WriteString("Definition RF := Eval vm_compute in check_fcases fcases.\nPrint RF.\n")
 		os.WriteFile(args.Out, []byte(sb.String()), 0o644)
 	}
-	meta.Cases = len(cases)
+	meta.Cases = len(cases) + len(fcases)
 	meta.Write(args.Meta)
 }
